@@ -198,7 +198,7 @@ PROPS = {
         'engine': 'con_queue',
         'level': 'exploration',
         'technique': 'deterministic simulation: seeded controlled scheduler with simulated condition variable and clock; terminal-state (lost wake-up) check, early-return and timeout oracles; injected spurious wake-ups, late timers, stalled tasks',
-        'level_text': 'Seeded search over interleavings of draining waiters, enqueuers (with nested DisableQueueNotify scopes) and processors, including preemption between a waiter\'s predicate evaluation and its blocking. Because plans are finite, "blocked forever" is decided as "blocked at the terminal state". Spurious wake-ups and late timers are injected. Sampling, not enumeration.',
+        'level_text': 'Seeded search over interleavings of draining waiters, enqueuers (with nested DisableQueueNotify scopes) and processors (process, processOne, takeEvent, and processIf / processUntil whose predicates leave events in the queue without any notification), including preemption between a waiter\'s predicate evaluation and its blocking. Because plans are finite, "blocked forever" is decided as "blocked at the terminal state". Spurious wake-ups and late timers are injected. Sampling, not enumeration.',
         'level_note': 'Trusted: SimCondVar models std::condition_variable (atomic unlock-and-wait, notify_one wakes one arbitrary waiter, spurious wake-ups, timers never early). Sequential consistency.',
         'stages': [
             {'name': 'c07', 'bin': 'con_queue', 'mode': 'c07', 'runs': {'quick': 200000, 'thorough': 5000000}, 'time': {'quick': 90, 'thorough': 900}},
@@ -207,7 +207,7 @@ PROPS = {
                 'optionally one processor) on EventQueue or HeterEventQueue under one seeded schedule, with spurious wake-ups in a third of the runs and a per-run clock quantum. '
                 'Non-trivial = a preemption landed inside another task\'s library call; distinct = distinct (task, tag) switch-sequence hashes.',
         'real_vs_stub': REAL_STUB_CON,
-        'assumptions': CON_ASSUMPTIONS + ['processIf/processUntil are not used by the processing tasks of these plans (DESIGN.md C07 traps).'],
+        'assumptions': CON_ASSUMPTIONS + ['A polling waiter that gives up after 120 fruitless rounds (wait() returns at once, nothing to consume) makes the terminal-state oracle inconclusive for that run; counted as terminal_inconclusive_polling_waiter_gave_up.'],
         'extra_coverage': con_extra(['c07']),
     },
     'C11': {
